@@ -1,5 +1,6 @@
 import VizierModel.Driver.Util
 import VizierModel.Driver.CodecJson
+import VizierModel.Model.FeatureMapper
 open Lean VizierModel.Driver VizierModel VizierModel.Codec VizierModel.Driver.CodecJson
 
 /-- one (space, converter configuration) case: encode the points, decode the arrays and judge
@@ -47,11 +48,35 @@ def handleLabels (j : Json) : Except String Json := do
   let back := conv.map (toMetric ops mc)
   return Json.mkObj [("conv", toJson (conv.map hexOfFloat).toArray), ("back", toJson (back.map hexOfFloat).toArray)]
 
+/-- {"op":"fmap","specs":[0 | n>0 …],"rows":[[cell…]]}: cell = string (continuous value, opaque) or
+    list of 0/1 (one-hot block).  Per row: the mapped value and the row rebuilt from it. -/
+def handleFmap (j : Json) : Except String Json := do
+  let specNums ← fromJson? (α := Array Nat) (← j.getObjVal? "specs")
+  let specs : List FeatureMapper.Spec := specNums.toList.map fun n => if n == 0 then .cont else .onehot n
+  let rows ← getArr j "rows"
+  let mut out : Array Json := #[]
+  for r in rows do
+    let cells ← (← fromJson? (α := Array Json) r).toList.mapM fun (cj : Json) => do
+      match cj with
+      | .str v => pure (FeatureMapper.Cell.c v)
+      | _ => do
+        let bits ← fromJson? (α := Array Nat) cj
+        pure (FeatureMapper.Cell.block (bits.toList.map (· != 0)))
+    let m := FeatureMapper.mapRow cells
+    let back := FeatureMapper.unmapRow specs m
+    let cellJson : FeatureMapper.Cell String → Json
+      | .c v => Json.str v
+      | .block bits => toJson (bits.map fun b => if b then (1 : Nat) else 0).toArray
+    out := out.push (Json.mkObj [("cont", toJson m.cont.toArray), ("cat", toJson m.cat.toArray),
+      ("back", match back with | some row => toJson (row.map cellJson).toArray | none => Json.null)])
+  return Json.mkObj [("rows", toJson out)]
+
 def handle (j : Json) : Except String Json := do
   let op ← getStr j "op"
   match op with
   | "codec" => handleCodec j
   | "labels" => handleLabels j
+  | "fmap" => handleFmap j
   | _ => throw s!"unknown op {op}"
 
 def main : IO Unit := serve handle
